@@ -30,8 +30,9 @@ META = {
             "plus connection-layer messages before authentication. Deviations per message: truncation after / "
             "inside every field and inside every length prefix; every string -> {empty, ff fe, 1 MiB length "
             "prefix, 2^32-1 length prefix}; uint32 -> {0,1,2^31,2^32-1}; boolean -> 2; mpint -> {0,1,negative,"
-            "2^9000}; name-list -> {+empty element, +non-ASCII}; 64 bytes appended; zero-length payload; same "
-            "body under another type (18 types quick / all 256 thorough); and at 14 stages (quick; every replaced "
+            "2^9000}; name-list -> {+empty element, +non-ASCII}; the same inside nested public-key / signature "
+            "blobs (ed25519, ecdsa, rsa); 64 bytes appended; zero-length payload; same "
+            "body under another type (12 types quick / all 256 thorough); and at 12 stages (quick; every replaced "
             "message in thorough) the message replaced by every type 0..255 with an empty body.",
     "note": "exactly one deviating message per execution (pairs are not explored); peer is a real paramiko "
             "Transport; key = (victim role, stage, innermost paramiko frame outside message.py/util.py, class)",
@@ -39,7 +40,7 @@ META = {
 }
 
 C, S = "client", "server"
-QUICK_TYPES = (1, 3, 6, 7, 20, 21, 31, 50, 52, 60, 61, 80, 81, 90, 91, 94, 98, 99)
+QUICK_TYPES = (1, 4, 7, 20, 21, 50, 60, 61, 80, 90, 92, 98)
 KEX = {"c25519": "curve25519-sha256@libssh.org", "ecdh": "ecdh-sha2-nistp256",
        "group14": "diffie-hellman-group14-sha256", "gex": "diffie-hellman-group-exchange-sha256"}
 PHASES = ["handshake", "auth", "globals", "chan", "requests", "io", "exec", "subsys", "server-opens", "direct",
@@ -286,6 +287,10 @@ def cid(x):       # recipient channel number as seen by the victim
 
 
 KEXINIT_SPEC = ["raw16"] + ["list"] * 10 + ["bool", "int"]
+# nested blobs (public keys / signatures): ("str", inner spec)
+KB = {"ed25519": ("str", ["text", "str"]), "ecdsa-256": ("str", ["text", "text", "str"]),
+      "rsa": ("str", ["text", "mpint", "mpint"])}
+SIG = ("str", ["text", "str"])
 CHREQ = ["int", "text", "bool"]
 
 
@@ -299,19 +304,23 @@ def templates():
     for fam, kex in KEX.items():
         cfg = {"kex": kex}
         if fam in ("c25519", "ecdh"):
-            t.append(rep("KEXECDH_REPLY/" + fam, "kex-" + fam, C, 31, ["str", "str", "str"], cfg=cfg,
+            t.append(rep("KEXECDH_REPLY/" + fam, "kex-" + fam, C, 31, [KB["ed25519"], "str", SIG], cfg=cfg,
                          sweep=(fam == "c25519"), **hs))
             t.append(rep("KEXECDH_INIT/" + fam, "kex-" + fam, S, 30, ["str"], cfg=cfg, sweep=(fam == "c25519"), **hs))
         elif fam == "group14":
-            t.append(rep("KEXDH_REPLY", "kex-group14", C, 31, ["str", "mpint", "str"], cfg=cfg, **hs))
+            t.append(rep("KEXDH_REPLY", "kex-group14", C, 31, [KB["ed25519"], "mpint", SIG], cfg=cfg, **hs))
             t.append(rep("KEXDH_INIT", "kex-group14", S, 30, ["mpint"], cfg=cfg, **hs))
         else:
             t.append(rep("KEXDH_GEX_GROUP", "kex-gex", C, 31, ["mpint", "mpint"], cfg=cfg, **hs))
-            t.append(rep("KEXDH_GEX_REPLY", "kex-gex", C, 33, ["str", "mpint", "str"], cfg=cfg, **hs))
+            t.append(rep("KEXDH_GEX_REPLY", "kex-gex", C, 33, [KB["ed25519"], "mpint", SIG], cfg=cfg, **hs))
             t.append(rep("KEXDH_GEX_REQUEST", "kex-gex", S, 34, ["int", "int", "int"], cfg=cfg, **hs))
             t.append(rep("KEXDH_GEX_INIT", "kex-gex", S, 32, ["mpint"], cfg=cfg, **hs))
             t.append(rep("KEXDH_GEX_REQUEST_OLD", "kex-gex", S, 34, ["int"], cfg=cfg,
                          build=lambda x, raw: mk(30, ("int", 2048)), **hs))
+    # host keys of the other types (the client parses the blob with the negotiated key class)
+    for hk in ("ecdsa-256", "rsa"):
+        t.append(rep("KEXECDH_REPLY/hostkey-" + hk, "kex-c25519", C, 31, [KB[hk], "str", SIG],
+                     cfg={"kex": KEX["c25519"], "hostkey": hk}, **hs))
     # --- service / userauth, client victim
     t.append(rep("EXT_INFO", "ext-info", C, 7, ["int", "text", "str"], **hs))
     t.append(rep("SERVICE_ACCEPT", "service", C, 6, ["text"], sweep=True, **hs))
@@ -332,13 +341,13 @@ def templates():
     t.append(rep("USERAUTH_REQUEST/password-change", "auth-password", S, 50, UR + ["bool", "str", "str"],
                  build=lambda x, raw: mk(50, ("str", b"alice"), ("str", b"ssh-connection"), ("str", b"password"),
                                          ("bool", True), ("str", b"pw"), ("str", b"newpw")), **hs))
-    t.append(rep("USERAUTH_REQUEST/publickey-ecdsa", "auth-publickey", S, 50, UR + ["bool", "text", "str", "str"],
-                 cfg={"auth": "publickey"}, **hs))
-    t.append(rep("USERAUTH_REQUEST/publickey-rsa", "auth-publickey", S, 50, UR + ["bool", "text", "str", "str"],
+    t.append(rep("USERAUTH_REQUEST/publickey-ecdsa", "auth-publickey", S, 50,
+                 UR + ["bool", "text", KB["ecdsa-256"], SIG], cfg={"auth": "publickey"}, **hs))
+    t.append(rep("USERAUTH_REQUEST/publickey-rsa", "auth-publickey", S, 50, UR + ["bool", "text", KB["rsa"], SIG],
                  cfg={"auth": "publickey", "userkey": "rsa"}, **hs))
-    t.append(rep("USERAUTH_REQUEST/publickey-ed25519", "auth-publickey", S, 50, UR + ["bool", "text", "str", "str"],
-                 cfg={"auth": "publickey", "userkey": "ed25519"}, **hs))
-    t.append(rep("USERAUTH_REQUEST/publickey-query", "auth-publickey", S, 50, UR + ["bool", "text", "str"],
+    t.append(rep("USERAUTH_REQUEST/publickey-ed25519", "auth-publickey", S, 50,
+                 UR + ["bool", "text", KB["ed25519"], SIG], cfg={"auth": "publickey", "userkey": "ed25519"}, **hs))
+    t.append(rep("USERAUTH_REQUEST/publickey-query", "auth-publickey", S, 50, UR + ["bool", "text", KB["ed25519"]],
                  build=lambda x, raw: mk(50, ("str", b"alice"), ("str", b"ssh-connection"), ("str", b"publickey"),
                                          ("bool", False), ("str", b"ssh-ed25519"),
                                          ("str", F.key("ed25519").asbytes())), **hs))
@@ -552,7 +561,8 @@ def execute(tpl, dev, role=None, banner=None, probe_cfg=None):
         ckw = {}
         if kex:
             ckw["disabled_algorithms"] = {"kex": [k for k in Transport._preferred_kex if k != kex]}
-        p = F.Pair(server=srv, hostkeys=("ed25519",), packetizer=CF.EditPacketizer, tclass=CF.RecExcTransport,
+        p = F.Pair(server=srv, hostkeys=(cfg.get("hostkey", "ed25519"),), packetizer=CF.EditPacketizer,
+                   tclass=CF.RecExcTransport,
                    client_kw=ckw)
         if kex and "group-exchange" in kex:
             p.ts._modulus_pack = CF.modulus_pack()
@@ -586,7 +596,7 @@ def execute(tpl, dev, role=None, banner=None, probe_cfg=None):
         p.close()
         s.quiesce()
 
-    ex, hung = CF.run(body, horizon=45.0, step_budget=30_000, wd=6.0)
+    ex, hung = CF.run(body, horizon=45.0, step_budget=30_000, wd=4.0)
     out["outcome"] = ex.outcome
     out["error"] = repr(ex.error) if ex.error is not None else None
     out["hung"] = hung
@@ -698,8 +708,8 @@ def cases(tier, tpls):
 QUICK_SWEEPS = {
     "client:KEXINIT", "server:KEXINIT", "client:KEXECDH_REPLY/c25519", "server:KEXECDH_INIT/c25519",
     "client:NEWKEYS", "server:NEWKEYS", "client:pre-auth/GLOBAL_REQUEST", "server:pre-auth/GLOBAL_REQUEST",
-    "client:SERVICE_ACCEPT", "server:USERAUTH_REQUEST/password", "client:GLOBAL_REQUEST/to-client",
-    "server:GLOBAL_REQUEST/tcpip-forward", "client:CHANNEL_DATA", "server:CHANNEL_CLOSE",
+    "client:GLOBAL_REQUEST/to-client", "server:GLOBAL_REQUEST/tcpip-forward", "client:CHANNEL_DATA",
+    "server:CHANNEL_CLOSE",
 }
 _TPL = {}
 
@@ -760,7 +770,7 @@ def main(tier):
                      "default algorithms except the kex family under test; ed25519 host key",
                      "victim timeouts shortened (auth/channel 5 s, handshake 8 s virtual); a victim API still blocked "
                      "after 45 virtual seconds is recorded as a hang, not judged (C13)",
-                     "a thread spinning for 6 CPU-seconds without a scheduling point is interrupted and reported "
+                     "a thread spinning for 4 CPU-seconds without a scheduling point is interrupted and reported "
                      "as HangDetected at its site"])
     tpls = templates()
     ncfg = probe_templates(tpls)
